@@ -7,6 +7,8 @@
 //	var_facts     accesses to the package-level variables of session_manager.go
 //	auth_sites    every call of security.NewAuthenticator in the library packages,
 //	              with the kind of its configuration argument
+//	hook_sites    every place a config-returning hook (func ... *SecurityConfig) is
+//	              installed on an Authenticator, with what it hands over
 //	broker_io     Write/ReadControlAd calls in brokerReg methods: origin of the
 //	              stream argument and locks held
 //	stream_send / stream_recv   field accesses of stream.Stream reachable from the
@@ -43,6 +45,8 @@ func exprText(e ast.Expr) string {
 		return exprText(v.X) + "[]"
 	case *ast.CallExpr:
 		return exprText(v.Fun) + "()"
+	case *ast.FuncLit:
+		return "func literal"
 	}
 	return "?"
 }
@@ -294,6 +298,133 @@ func authSites(p *loadedPkg, out *[]authSite) {
 					}
 				}
 				*out = append(*out, authSite{name, exprText(arg), kind})
+				return true
+			})
+		}
+	}
+}
+
+type hookSite struct{ fn, field, rhs, kind string }
+
+// isCfgHookType: func(...) *security.SecurityConfig
+func isCfgHookType(t types.Type) bool {
+	sig, ok := t.Underlying().(*types.Signature)
+	if !ok || sig.Results().Len() != 1 {
+		return false
+	}
+	return sig.Results().At(0).Type().String() == "*"+modPath+"/security.SecurityConfig"
+}
+
+// hookKind classifies what is installed as a config-returning hook of an
+// Authenticator: a function literal each of whose returns is nil or the address
+// of a local copy (`c := *cfg; return &c`) / fresh literal is HookCopy; a nil
+// is HookNil; anything else (a method value, a caller-supplied func, a literal
+// that returns a pointer it did not create) is HookShared.
+func hookKind(p *loadedPkg, fd *ast.FuncDecl, rhs ast.Expr) string {
+	rhs = ast.Unparen(rhs)
+	if id, ok := rhs.(*ast.Ident); ok && id.Name == "nil" {
+		return "HookNil"
+	}
+	lit, ok := rhs.(*ast.FuncLit)
+	if !ok {
+		return "HookShared"
+	}
+	okAll, any := true, false
+	ast.Inspect(lit.Body, func(n ast.Node) bool {
+		if inner, ok := n.(*ast.FuncLit); ok && inner != lit {
+			return false
+		}
+		r, ok := n.(*ast.ReturnStmt)
+		if !ok {
+			return true
+		}
+		any = true
+		if len(r.Results) != 1 {
+			okAll = false
+			return true
+		}
+		e := ast.Unparen(r.Results[0])
+		if id, ok := e.(*ast.Ident); ok && id.Name == "nil" {
+			return true
+		}
+		u, ok := e.(*ast.UnaryExpr)
+		if !ok || u.Op != token.AND {
+			okAll = false
+			return true
+		}
+		switch x := ast.Unparen(u.X).(type) {
+		case *ast.CompositeLit:
+		case *ast.Ident:
+			vo, ok := p.Info.Uses[x].(*types.Var)
+			if !ok || vo.IsField() || vo.Parent() == p.Types.Scope() {
+				okAll = false
+				return true
+			}
+			def := localDef(p, fd, vo)
+			switch ast.Unparen(def).(type) {
+			case *ast.StarExpr, *ast.CompositeLit:
+			default:
+				okAll = false
+			}
+		default:
+			okAll = false
+		}
+		return true
+	})
+	if okAll && any {
+		return "HookCopy"
+	}
+	return "HookShared"
+}
+
+func hookSites(p *loadedPkg, out *[]hookSite) {
+	for _, file := range p.Files {
+		for _, d := range file.Decls {
+			fd, ok := d.(*ast.FuncDecl)
+			if !ok || fd.Body == nil {
+				continue
+			}
+			name := funcKey(p, fd)
+			ast.Inspect(fd.Body, func(n ast.Node) bool {
+				switch v := n.(type) {
+				case *ast.AssignStmt:
+					for i, l := range v.Lhs {
+						sel, ok := ast.Unparen(l).(*ast.SelectorExpr)
+						if !ok {
+							continue
+						}
+						s, ok := p.Info.Selections[sel]
+						if !ok || s.Kind() != types.FieldVal || !isCfgHookType(s.Type()) {
+							continue
+						}
+						nn := namedOf(s.Recv())
+						if nn == nil || nn.Obj().Name() != "Authenticator" {
+							continue
+						}
+						kind := "HookShared"
+						rhs := "?"
+						if len(v.Rhs) == len(v.Lhs) {
+							kind = hookKind(p, fd, v.Rhs[i])
+							rhs = exprText(v.Rhs[i])
+						}
+						*out = append(*out, hookSite{name, "Authenticator." + sel.Sel.Name, rhs, kind})
+					}
+				case *ast.CompositeLit:
+					tv := p.Info.Types[v]
+					nn := namedOf(tv.Type)
+					if nn == nil || nn.Obj().Name() != "Authenticator" {
+						return true
+					}
+					for _, el := range v.Elts {
+						kv, ok := el.(*ast.KeyValueExpr)
+						if !ok {
+							continue
+						}
+						if tvv, ok := p.Info.Types[kv.Value]; ok && tvv.Type != nil && isCfgHookType(tvv.Type) {
+							*out = append(*out, hookSite{name, "Authenticator." + exprText(kv.Key), exprText(kv.Value), hookKind(p, fd, kv.Value)})
+						}
+					}
+				}
 				return true
 			})
 		}
@@ -612,6 +743,10 @@ func factsC17(b *strings.Builder) error {
 	if len(sites) == 0 {
 		return fmt.Errorf("no call site of security.NewAuthenticator found")
 	}
+	var hooks []hookSite
+	for _, s := range []string{"security", "client", "server", "ccb"} {
+		hookSites(pk[s], &hooks)
+	}
 	var bio []brokerIO
 	brokerWalk(ccb, &bio)
 	send, recv, sendM, recvM, err := streamSplit(str)
@@ -643,6 +778,14 @@ func factsC17(b *strings.Builder) error {
 			sep = ""
 		}
 		fmt.Fprintf(b, "  mk_as %s %s %s%s\n", coqStr(s.fn), coqStr(s.arg), s.kind, sep)
+	}
+	b.WriteString("].\n\nDefinition hook_sites : list hook_site := [\n")
+	for i, h := range hooks {
+		sep := ";"
+		if i == len(hooks)-1 {
+			sep = ""
+		}
+		fmt.Fprintf(b, "  mk_hs %s %s %s %s%s\n", coqStr(h.fn), coqStr(h.field), coqStr(h.rhs), h.kind, sep)
 	}
 	b.WriteString("].\n\nDefinition broker_io : list broker_fact := [\n")
 	for i, s := range bio {
